@@ -176,6 +176,12 @@ def check_lth(run, pkg, weighted):
     detail = show(wfac)[:120] if wfac else "no weight factor"
     if post_den is not None and wfac is not None and not (wfac[0] == "bin" and wfac[1] == "/"):
         wfac = ("bin", "/", wfac, post_den)        # (sum w k) / D == sum (w / D) k for a scalar D
+    if wfac is not None and not any(x[0] == "bin" and x[1] == "/" for x in walk(wfac)) and Wt is not None:
+        # the weight table divided in place, once per frame, before the particle loop:  W[:, 1:] /= D
+        inplace = [e for e in it.events if e.kind == "store" and e.data.get("op") == "/" and e.data["target"][0] == "sub" and e.data["target"][1] == Wt]
+        if len(inplace) == 1 and wfac[0] == "sub" and wfac[1] == Wt:
+            tgt_ = ("sub", Wt, inplace[0].data["target"][2])
+            wfac = ("sub", ("bin", "/", tgt_, inplace[0].data["value"]), wfac[2])
     if wfac is not None and wfac[0] == "bin" and wfac[1] == "/":
         w, den = wfac[2], wfac[3]
         okden = eqv(den, ("call", ".sum", (("call", "numpy.abs", (w,), ()),), ()), ("call", "numpy.sum", (("call", "numpy.abs", (w,), ()),), ()), ("call", ".sum", (("call", "numpy.absolute", (w,), ()),), ()))
@@ -199,10 +205,11 @@ def check_lth(run, pkg, weighted):
         def rowsum(x):
             return [("call", ".sum", (x,), (("axis", C(1)),)), ("call", "numpy.sum", (x,), (("axis", C(1)),)), ("call", ".sum", (x, C(1)), ()), ("call", ".sum", (x,), (("axis", C(-1)),)),
                     ("call", ".sum", (x,), (("axis", C(1)), ("keepdims", C(True)))), ("call", "numpy.sum", (x,), (("axis", C(1)), ("keepdims", C(True))))]
-        okden = True if any(Dn in rowsum(a) for a in absA) else (False if Dn in rowsum(A) else None)
+        abs_of_sum = any(Dn == ("call", f, (r,), ()) for f in ("numpy.abs", "numpy.absolute", "builtins.abs") for r in rowsum(A))
+        okden = True if any(Dn in rowsum(a) for a in absA) else (False if (Dn in rowsum(A) or abs_of_sum) else None)
         # zero padding does not contribute to either sum, so the row sum over all columns is the sum over the cn_i bonds
         run.ob("R-ALG", fq, "weighted:normalised", okden, "weights are divided by the sum of their absolute values (|psi| <= 1 also with negative weights)", show(Dn)[:80],
-               witness=None if okden else "row sum without absolute values: weights (2, -1) are scaled by 1 instead of 1/3 - |psi| exceeds 1, and weights (1, -1) divide by zero", loc=loc, sound=True)
+               witness=None if okden else ("absolute value of the row sum, not the sum of absolute values: " if abs_of_sum else "row sum without absolute values: ") + "weights (2, -1) are scaled by 1 instead of 1/3 - |psi| exceeds 1, and weights (1, -1) divide by zero", loc=loc, sound=True)
     else:
         run.ob("R-ALG", fq, "weighted:normalised", None, "weights are divided by the sum of their absolute values", detail, loc=loc)
     okW = True if Wt is not None else None
